@@ -319,7 +319,17 @@ pub mod proofs {
         r
     }
 
-    fn lr<const N: usize, const LM: bool>(tail: bool) {
+    pub struct Facts {
+        pub want: u8,
+        pub ms: bool,
+        pub str0: bool,
+        pub regex1: bool,
+        pub m0: bool,
+        pub m1: bool,
+        pub m2: bool,
+    }
+
+    fn lr<const N: usize, const LM: bool>(tail: bool) -> Facts {
         let s = any_setup::<N>();
         kani::assume(in_tail_region::<N>(&s) == tail);
         let it = sort_and_lex::<N>(&s, false);
@@ -333,17 +343,11 @@ pub mod proofs {
             }
             None => assert!(want == 0, "C06 a token is produced iff some expected terminal matches"),
         }
-        if !tail {
-            kani::cover!(want != 0 && s.ms && s.kind[0] > 0 && s.m[1].is_some() && s.kind[1] == 0, "string beats matching regex candidate");
-            kani::cover!(want == 2 && s.m[0].is_some(), "second terminal wins over a matching first");
-            kani::cover!(want == 0, "nothing matches");
-        } else {
-            kani::cover!(want == 1 && s.m[1].is_none() && s.m[2].is_some(), "lower-priority match after an unmatched group member is suppressed");
-        }
         std::mem::forget(got);
+        Facts { want, ms: s.ms, str0: s.kind[0] > 0, regex1: s.kind[1] == 0, m0: s.m[0].is_some(), m1: s.m[1].is_some(), m2: s.m[2].is_some() }
     }
 
-    fn glr<const N: usize, const LM: bool, const GO: bool>(tail: bool) {
+    fn glr<const N: usize, const LM: bool, const GO: bool>(tail: bool) -> Facts {
         let s = any_setup::<N>();
         kani::assume(in_tail_region::<N>(&s) == tail);
         let it = sort_and_lex::<N>(&s, false);
@@ -361,32 +365,50 @@ pub mod proofs {
             i += 1;
         }
         assert!(mask == want, "C06 GLR keeps exactly the tokens surviving the enabled strategies");
-        if !tail {
-            kani::cover!(want.count_ones() >= 2, "two tokens survive (GLR follows both)");
-            kani::cover!(want.count_ones() == 1 && s.m[0].is_some() && s.m[1].is_some(), "two match, one survives");
-        } else {
-            kani::cover!(want == 1 && s.m[1].is_none() && s.m[2].is_some(), "lower-priority match after an unmatched group member is suppressed");
-        }
         std::mem::forget(got);
+        Facts { want, ms: s.ms, str0: s.kind[0] > 0, regex1: s.kind[1] == 0, m0: s.m[0].is_some(), m1: s.m[1].is_some(), m2: s.m[2].is_some() }
+    }
+
+    macro_rules! covers {
+        (lr, false, $f:ident) => {
+            kani::cover!($f.want != 0 && $f.ms && $f.str0 && $f.m1 && $f.regex1, "string beats matching regex candidate");
+            kani::cover!($f.want == 2 && $f.m0, "second terminal wins over a matching first");
+            kani::cover!($f.want == 0, "nothing matches");
+        };
+        (lr, true, $f:ident) => {
+            kani::cover!($f.want == 1 && !$f.m1 && $f.m2, "lower-priority match after an unmatched group member is suppressed");
+        };
+        (glr, false, false, $f:ident) => {
+            kani::cover!($f.want.count_ones() >= 2, "two tokens survive (GLR follows both)");
+            kani::cover!($f.want.count_ones() == 1 && $f.m0 && $f.m1, "two match, one survives");
+        };
+        (glr, false, true, $f:ident) => {
+            kani::cover!($f.want.count_ones() == 1 && $f.m0 && $f.m1, "two match, one survives");
+        };
+        (glr, true, $go:tt, $f:ident) => {
+            kani::cover!($f.want == 1 && !$f.m1 && $f.m2, "lower-priority match after an unmatched group member is suppressed");
+        };
     }
 
     macro_rules! lrh {
-        ($name:ident, $n:expr, $lm:expr, $tail:expr) => {
+        ($name:ident, $n:expr, $lm:expr, $tail:tt) => {
             #[kani::proof]
             #[kani::unwind(8)]
             #[kani::stub(std::env::var_os, crate::no_env)]
             pub fn $name() {
-                lr::<$n, $lm>($tail);
+                let f = lr::<$n, $lm>($tail);
+                covers!(lr, $tail, f);
             }
         };
     }
     macro_rules! glrh {
-        ($name:ident, $n:expr, $lm:expr, $go:expr, $tail:expr) => {
+        ($name:ident, $n:expr, $lm:expr, $go:tt, $tail:tt) => {
             #[kani::proof]
             #[kani::unwind(8)]
             #[kani::stub(std::env::var_os, crate::no_env)]
             pub fn $name() {
-                glr::<$n, $lm, $go>($tail);
+                let f = glr::<$n, $lm, $go>($tail);
+                covers!(glr, $tail, $go, f);
             }
         };
     }
@@ -496,7 +518,7 @@ pub mod proofs {
     #[kani::unwind(8)]
     #[kani::stub(std::env::var_os, crate::no_env)]
     pub fn lex_twin_must_fail() {
-        lr::<3, true>(false);
+        let _ = lr::<3, true>(false);
         assert!(false, "twin: reachable end of harness");
     }
 }
